@@ -247,6 +247,8 @@ type builder struct {
 	// copied into an enclosing container: the use checks call the struct's
 	// public entry points there.
 	afterFill func(n *Node, p reflect.Value)
+	// hdrNames[j], when set, names the j-th entry of header maps (default h<j>)
+	hdrNames []string
 }
 
 func newBuilder() *builder { return &builder{cache: map[string]reflect.Value{}} }
@@ -357,7 +359,11 @@ func (b *builder) fillStruct(v reflect.Value, hdrs int, path string) {
 			m := b.cached(fp, func() reflect.Value { return reflect.MakeMapWithSize(tHeaders, hdrs) })
 			m.Clear()
 			for j := 0; j < hdrs; j++ {
-				m.SetMapIndex(reflect.ValueOf(fmt.Sprintf("h%d", j)), b.secret())
+				name := fmt.Sprintf("h%d", j)
+				if j < len(b.hdrNames) {
+					name = b.hdrNames[j]
+				}
+				m.SetMapIndex(reflect.ValueOf(name), b.secret())
 			}
 			f.Set(m)
 		case sf.Type.Kind() == reflect.Struct && hasOpaque(sf.Type, map[reflect.Type]bool{}):
@@ -381,17 +387,18 @@ func slots(n *Node) int {
 // shapeInfo summarises a shape for classification and for the preconditions
 // of the individual oracles.
 type shapeInfo struct {
-	depth         int
-	kinds         map[string]bool
-	multiOmap     bool // an omap with >= 2 entries
-	omap          bool
-	multiMap      bool // any map with >= 2 entries (gob iterates maps in random order)
-	real          bool
-	ptrOK         bool // no pointer at all, or only a root pointer to a composite (printed as &{…}, never as an address or through a method)
-	jsonStringTag bool // a field tagged `json:",string"` (quotes plain strings twice, ignored for TextMarshalers)
-	xmlIfaceText  bool // a field tagged as XML attribute or chardata whose type is not T or *T for a leaf type T
-	ptrUnderMul   bool // a ptr (or real: it holds pointers) below a multi-entry omap
-	sig           string
+	depth           int
+	kinds           map[string]bool
+	multiOmap       bool // an omap with >= 2 entries
+	omap            bool
+	multiMap        bool // any map with >= 2 entries (gob iterates maps in random order)
+	real            bool
+	ptrOK           bool // no pointer at all, or only a root pointer to a composite (printed as &{…}, never as an address or through a method)
+	jsonStringTag   bool // a field tagged `json:",string"` (quotes plain strings twice, ignored for TextMarshalers)
+	arrayOverSecret bool // a non-empty array with a secret slot somewhere below it
+	xmlIfaceText    bool // a field tagged as XML attribute or chardata whose type is not T or *T for a leaf type T
+	ptrUnderMul     bool // a ptr (or real: it holds pointers) below a multi-entry omap
+	sig             string
 }
 
 func (n *Node) info() *shapeInfo {
@@ -421,6 +428,10 @@ func (n *Node) info() *shapeInfo {
 			}
 			if n.N >= 2 {
 				si.multiMap = true // header maps
+			}
+		case "array":
+			if n.N > 0 && slots(n.C[0]) > 0 {
+				si.arrayOverSecret = true
 			}
 		case "omap":
 			si.omap = true
